@@ -211,7 +211,7 @@ func runC14(res *vh.Result) {
 	res.Exhaustive = true // the QFI x PDU type x ext core is enumerated completely per (TEID,len) pair
 	teids := []uint32{0, 1, 0x7fffffff, 0x80000000, 0xffffffff, 0x01020304}
 	lens := []int{0, 1, 2, 3, 4, 5, 7, 8, 9, 1399, 1400, 1401, 1402, 1403, 1499, 1500}
-	extraPairs := vh.Tiered(6, 2500)
+	extraPairs := vh.Tiered(6, 5000)
 	type pair struct {
 		teid uint32
 		l    int
@@ -230,7 +230,7 @@ func runC14(res *vh.Result) {
 	}
 	base := len(pairs)
 	total := base + extraPairs
-	nwriter := vh.Tiered(400, 20000)
+	nwriter := vh.Tiered(400, 200000)
 	seen := map[string]bool{}
 	res.Cases(total+nwriter, func(i int, rng *vh.Rng) {
 		if i >= total {
